@@ -1081,6 +1081,54 @@ def _emit_fn(asm, out, unit, kv, block, default_props):
             body = pat.sub(lambda _m: b, body)
             sig = pat.sub(lambda _m: b, sig)
             asm.rewrites.append(('subst %r => %r' % (a, b), fname, n))
+        elif t.startswith('substx '):
+            # `substx "A $1 B $2 C" => "D $1 E $2"`: like subst, but `$n` stands for any bracket-balanced expression (so a
+            # renamed local or a reshaped argument does not lose the site); whitespace-insensitive otherwise
+            m = re.match(r'substx\s+"((?:[^"\\]|\\.)*)"\s*=>\s*"((?:[^"\\]|\\.)*)"', t)
+            if not m:
+                raise ExtractError("bad substx directive in %s: %s" % (fname, t))
+            a = m.group(1).replace('\\"', '"')
+            b = m.group(2).replace('\\"', '"')
+            parts = re.split(r'(\$\d)', a)
+            rx = ''
+            order = []
+            for part in parts:
+                if re.fullmatch(r'\$\d', part):
+                    rx += r'\s*(.+?)\s*'
+                    order.append(part)
+                else:
+                    rx += r'\s*'.join(re.escape(x) for x in re.findall(r'\w+|\S', part))
+            n = 0
+            pos_ = 0
+            while True:
+                mx = re.compile(rx, re.S).search(body, pos_)
+                if not mx:
+                    break
+                caps = {}
+                ok_ = True
+                for k_, name_ in enumerate(order):
+                    c_ = mx.group(k_ + 1)
+                    depth_ = 0
+                    for ch_ in c_:
+                        if ch_ in '([{':
+                            depth_ += 1
+                        elif ch_ in ')]}':
+                            depth_ -= 1
+                            if depth_ < 0:
+                                ok_ = False
+                    if depth_ != 0 or ';' in c_:
+                        ok_ = False
+                    caps[name_] = c_
+                if not ok_:
+                    pos_ = mx.start() + 1
+                    continue
+                rep = b
+                for name_, c_ in caps.items():
+                    rep = rep.replace(name_, c_)
+                body = body[:mx.start()] + rep + body[mx.end():]
+                pos_ = mx.start() + len(rep)
+                n += 1
+            asm.rewrites.append(('substx %r => %r' % (a, b), fname, n))
         elif t.startswith('wrap '):
             # `wrap "A(B(" => "C("`: every `A(B(E))` (whatever E is) becomes `C(E)` — for constructor nests such as
             # `Root::new(RefCell::new(E))` whose argument a refactoring may reshape
